@@ -441,6 +441,13 @@ def search(chk: common.Check, rng, n: int, tier: str):  # noqa: C901, PLR0912, P
     _ = np
     # ---- histories: purity of __call__ on one builder object (fresh and module-level objects)
     bad += hist.purity_oracle(chk, rng, 40 if tier == "quick" else 400)
+    # numbers vs symbols (int / Integer / symbolic L), exact pole, defaults, protocol implementations,
+    # compound arguments / generated code (notes/HARDENING.md)
+    from tools.search import C12_exact
+
+    hard, hinfo = C12_exact.hardening_oracle(chk, rng, tier)
+    chk.info("hardening_oracle", hinfo)
+    bad += hard
     return bad
 
 
@@ -520,6 +527,6 @@ MANIFEST = {
         "(checked: the attribute must be the object passed in). In the history tie a builder result is canonicalised to the NAME of the "
         "public lineshape it is structurally equal to (for that call's resonance symbols, pool, L, phase-space class); the Lean state "
         "machine is hand-written (about 25 lines of logic). The non-vanishing hypotheses ρ(m0²) ≠ 0, F(m0²) ≠ 0 are hypotheses of the "
-        "width theorems (they fail e.g. exactly at threshold). Floating-point evaluation is executed, not modelled."
+        "width theorems (they fail e.g. exactly at threshold). Floating-point evaluation is executed, not modelled. A hardening oracle (tools/search/C12_exact.py) checks on every run: numbers vs symbols with L as int / Integer / substituted Symbol for every public callable, the pole with exact rationals, defaults, phase-space factors given as functions/lambdas/classes (width, function API, builder), compound arguments in generated numpy code. Observed on the pinned tree and NOT counted: the symbolic-L Hankel path differs from the integer-L polynomial path for z <= 0 (below threshold), outside the domain z > 0 on which the clause is proved (notes/findings_C12.md)."
     ),
 }
